@@ -439,6 +439,9 @@ def replay_cases(run: Run, cases: list, stats: dict, base: str, pool, cli_n: int
             origins = ("inspect_nosrc",) if cc["agent"] == "inspect" else ("static",)
             pool_cases = [(i, c) for i, c in numbered if c["origin"] in origins and c["part"] == "shape" and c["cwdrel"] and c["kind"] != "root"
                           and c["enc"]["full"]["t"] != "raise" and not P.patched(c) and c["guard"] != "stub"]
+            if cc["form"] == "dotted":  # the member must exist when the loader looks it up: the __init__ synthesised by the
+                # dataclasses extension appears only afterwards (on_package_loaded), `griffe dump pkg.H.__init__` is a KeyError
+                pool_cases = [(i, c) for i, c in pool_cases if c["host"] != "dataclass"]
             if cc["form"] == "file":    # packages that consist of their __init__ module only
                 pool_cases = [(i, c) for i, c in pool_cases if c["kind"] not in ("module", "alias")]
             if len(pool_cases) < 2:
